@@ -2404,7 +2404,18 @@ public:
     SBEPP_CPP14_CONSTEXPR reference operator[](size_type pos) const noexcept
     {
         SBEPP_ASSERT(pos < size());
-        return *(begin() + pos);
+        // not `*(begin() + pos)`: iterator arithmetic takes the signed
+        // `difference_type`, `pos` from the upper half of `size_type` would
+        // become negative there
+        auto dimension = (*this)(get_header_tag{});
+        const auto block_length = dimension.blockLength().value();
+        return *iterator{
+            (*this)(addressof_tag{}) + sbepp::size_bytes(dimension)
+                + static_cast<std::size_t>(pos)
+                      * static_cast<std::size_t>(block_length),
+            block_length,
+            pos,
+            (*this)(end_ptr_tag{})};
     }
 
     //! @brief Returns the first entry
